@@ -14,7 +14,7 @@ import (
 	"github.com/mithrandie/ternary"
 )
 
-var verifC04Queries [9]parser.SelectQuery
+var verifC04Queries [10]parser.SelectQuery
 
 func VerifC04BucketsSetup() {
 	verifC04Queries[0] = verifParseSelect("select k, count(*), min(id), max(id), listagg(id, ',') from t group by k")
@@ -29,6 +29,8 @@ func VerifC04BucketsSetup() {
 	verifC04Queries[7] = verifParseSelect("select id, count(*) over (partition by k), count(*) over (partition by g), count(*) over (partition by id), count(*) over (partition by g, k) from t")
 	// DISTINCT inside aggregates, in default and in strict mode
 	verifC04Queries[8] = verifParseSelect("select count(distinct k), count(k) from t")
+	// the numeric and structured aggregates over the bucket's rows
+	verifC04Queries[9] = verifParseSelect("select k, sum(id), avg(id), median(id), json_agg(id), var(id), stdev(id) from t group by k")
 }
 
 var verifC04Menu = []string{"a", " A ", "b", "1", "x:y"}
@@ -91,9 +93,16 @@ func VerifC04Buckets() {
 		rows[i][2] = keys[n-1-i] // g: the same keys in reverse row order
 	}
 	verifTempTable(scope, "t", []string{"id", "k", "g"}, rows)
-	// u holds the key of row 0 (twice) and one extra key
-	extra := verifC04KeyCell("u", numeric)
-	verifTempTable(scope, "u", []string{"k"}, [][]value.Primary{{keys[0]}, {extra}, {keys[0]}})
+	qi := verifChoice("query", 10)
+	// u holds the key of row 0 (twice) and one extra key - or, for the set operators, no row at all
+	var extra value.Primary = value.NewNull()
+	uEmpty := qi >= 2 && qi <= 4 && verifBool("u.empty")
+	if uEmpty {
+		verifTempTable(scope, "u", []string{"k"}, [][]value.Primary{})
+	} else if qi >= 2 && qi <= 4 {
+		extra = verifC04KeyCell("u", numeric)
+		verifTempTable(scope, "u", []string{"k"}, [][]value.Primary{{keys[0]}, {extra}, {keys[0]}})
+	}
 	same := func(a, b value.Primary) bool {
 		if value.IsNull(a) || value.IsNull(b) {
 			return value.IsNull(a) && value.IsNull(b)
@@ -116,7 +125,6 @@ func VerifC04Buckets() {
 			reps = append(reps, i)
 		}
 	}
-	qi := verifChoice("query", 9)
 	strict := qi == 8 && verifChoice("strict", 2) == 1
 	flags.StrictEqual = strict
 	view, err := Select(verifCtx(), scope, verifC04Queries[qi])
@@ -200,6 +208,58 @@ func VerifC04Buckets() {
 			verifAssert("max(id) over the bucket", verifIntCell(rec[3][0]) == int64(max))
 			verifAssert("listagg(id) over the bucket", rec[4][0].(*value.String).Raw() == strings.Join(ids, ","))
 		}
+	case 9:
+		verifAssert("one group per class", view.RecordLen() == len(reps))
+		num := func(p value.Primary) float64 {
+			switch x := p.(type) {
+			case *value.Integer:
+				return float64(x.Raw())
+			case *value.Float:
+				return x.Raw()
+			}
+			return -999
+		}
+		for g := 0; g < view.RecordLen() && g < len(reps); g++ {
+			rec := view.RecordSet[g]
+			var ids []float64
+			js := "["
+			for i := 0; i < n; i++ {
+				if class[i] == g {
+					if len(ids) > 0 {
+						js += ","
+					}
+					ids = append(ids, float64(i))
+					js += strconv.Itoa(i)
+				}
+			}
+			js += "]"
+			sum := 0.0
+			for _, x := range ids {
+				sum += x
+			}
+			cnt := float64(len(ids))
+			med := ids[len(ids)/2]
+			if len(ids)%2 == 0 {
+				med = (ids[len(ids)/2-1] + ids[len(ids)/2]) / 2
+			}
+			verifAssert("sum(id) over the bucket", num(rec[1][0]) == sum)
+			verifAssert("avg(id) over the bucket", num(rec[2][0]) == sum/cnt)
+			verifAssert("median(id) over the bucket", num(rec[3][0]) == med)
+			j, ok := rec[4][0].(*value.String)
+			verifAssert("json_agg(id) over the bucket", ok && j.Raw() == js)
+			if len(ids) < 2 {
+				verifAssert("var / stdev of a single row", value.IsNull(rec[5][0]) && value.IsNull(rec[6][0]))
+			} else {
+				ss := 0.0
+				for _, x := range ids {
+					ss += (x - sum/cnt) * (x - sum/cnt)
+				}
+				v := num(rec[5][0])
+				verifAssert("var(id) over the bucket", v > ss/(cnt-1)-1e-9 && v < ss/(cnt-1)+1e-9)
+				sd := num(rec[6][0])
+				verifAssert("stdev(id) over the bucket", sd*sd > ss/(cnt-1)-1e-6 && sd*sd < ss/(cnt-1)+1e-6)
+			}
+		}
 	case 1:
 		verifAssert("distinct: one row per class", view.RecordLen() == len(reps))
 		for g := 0; g < view.RecordLen(); g++ {
@@ -207,14 +267,14 @@ func VerifC04Buckets() {
 		}
 	case 2, 3, 4:
 		// expected set semantics over t (classes) and u = {keys[0], extra}
-		inU := func(k value.Primary) bool { return same(k, keys[0]) || same(k, extra) }
+		inU := func(k value.Primary) bool { return !uEmpty && (same(k, keys[0]) || same(k, extra)) }
 		var want []value.Primary
 		switch qi {
 		case 2:
 			for _, r := range reps {
 				want = append(want, keys[r])
 			}
-			if !func() bool {
+			if !uEmpty && !func() bool {
 				for _, r := range reps {
 					if same(extra, keys[r]) {
 						return true
